@@ -107,12 +107,12 @@ def houtJ : HOut → Json
 def natsJ (l : List Nat) : Json := Json.arr ((l.mergeSort (· ≤ ·)).map (fun (n : Nat) => (n : Json))).toArray
 
 /-- run a history, printing for every operation the outcome and the state after it -/
-def runHist (I : Impl) : HState → List HOp → List Json
+def runHist (I : Impl) (H : Hooks) : HState → List HOp → List Json
   | _, [] => []
   | s, op :: ops =>
-    let r := hstep I s op
+    let r := hstepX I (fun _ _ => none) H s op
     Json.mkObj [("out", houtJ r.1), ("registry", r.2.registry.length), ("flags", natsJ r.2.flags.eraseDups),
-                ("job", natsJ r.2.jobAttr)] :: runHist I r.2 ops
+                ("job", natsJ r.2.jobAttr)] :: runHist I H r.2 ops
 
 def outJ : Out → Json
   | .ok => "ok" | .missing => "missing" | .fuel => "fuel"
@@ -159,7 +159,9 @@ def step (_ : Unit) (j : Json) : Unit × Json :=
         Json.arr ((argTable lib l c).map (fun e => Json.arr #[Json.str e.1, (e.2.1 : Json), (e.2.2.required : Json)])).toArray)).toArray)]
     | "history" =>
       let s0 : HState := { g := graphOf j }
-      Json.mkObj [("steps", Json.arr (runHist I s0 ((arrF j "ops").map opOf)).toArray)]
+      let hs := (arrF j "hooks").map (fun h => ((arr h).getD 0 Json.null |> nat, (arr h).getD 1 Json.null |> nat, valOf ((arr h).getD 2 Json.null)))
+      let H : Hooks := fun c vals => hs.any (fun h => h.1 == c && (match vals[h.2.1]? with | some (some v) => pyEq v h.2.2 | _ => false))
+      Json.mkObj [("steps", Json.arr (runHist I H s0 ((arrF j "ops").map opOf)).toArray)]
     | op => Json.mkObj [("error", Json.str s!"bad-op {op}")]
   ((), out)
 
